@@ -226,6 +226,19 @@ def prepare_examples(ctx, extreme_rain=True):
             t[ai] = "1"
             cl[i] = ",".join(t)
     open(cz, "w").write("\n".join(cl))
+    # MUN: a meadow left uncut for years (one rotation element per cut): the sward matures, dies back and re-sprouts on its
+    # own (crop.go, automatic re-sprouting of permanent crops: N of the dying stems and ears goes to the soil pool)
+    mp_ = os.path.join(ex, "project", "MUN")
+    pl_ = open(os.path.join(mp_, "poly_MUN.txt")).read().split("\n")
+    e_ = [i for i, l in enumerate(pl_) if l.strip().startswith("end")]
+    pl_.insert(e_[0] if e_ else len(pl_), "00020 001 GRA000001 99 99 0 meadow")
+    open(os.path.join(mp_, "poly_MUN.txt"), "w").write("\n".join(pl_))
+    cr_ = open(os.path.join(mp_, "crop_MUN.txt")).read().split("\n")
+    e_ = [i for i, l in enumerate(cr_) if l.strip() == "end"]
+    at_ = e_[0] if e_ else len(cr_)
+    cr_[at_:at_] = ["GRA000001 WRA 23082008 27072009 100  54  0", "GRA000001 GR  01092009 20102011 100      0",
+                    "GRA000001 GR  21102011 25052013 100      0", "GRA000001 GR  26052013 20102016 100      0"]
+    open(os.path.join(mp_, "crop_MUN.txt"), "w").write("\n".join(cr_))
     if extreme_rain:
         rnd = random.Random(ctx.seed)
         src = os.path.join(ex, "weather", "historical")
@@ -278,6 +291,7 @@ TRACE_LINES = [
     ("project=zuc WeatherFolder=extreme fcode=109_120 plotNr=10001 soilId=001 Altitude=73 Latitude=52.6732 poligonID=29872 AutoHarvest=0 AutoSowingHarvest=0", "DE"),
     ("project=ex3 WeatherFolder=historical soilId=075 gwId=KS fcode=109_120 plotNr=10001 Altitude=73 Latitude=52.6732 poligonID=29872", "EN"),
     ("project=ex1 WeatherFolder=historical soilId=903 fcode=109_120 plotNr=10003 Altitude=73 Latitude=52.6732 poligonID=29872 GroundWaterFrom=0", "EN"),
+    ("project=MUN WeatherFolder=MUN soilId=001 fcode=NEU plotNr=00020 Altitude=55 Latitude=54.00 poligonID=MUN parameter=./parameter StartYear=2009", "DE"),
     ("project=bulk WeatherFolder=extreme soilId=002 fcode=109_120 plotNr=10001 Altitude=73 Latitude=52.6732 poligonID=29872", "EN"),
     ("project=rue WeatherFolder=historical fcode=109_121 plotNr=10002 soilId=001 Altitude=46 Latitude=52.6431 poligonID=30169", "DE"),
     ("project=ex1 WeatherFolder=extreme soilId=041 fcode=109_121 plotNr=10001 Altitude=73 Latitude=52.6680 poligonID=29876 ETpot=1", "EN"),
@@ -345,7 +359,7 @@ def run_trace(ctx, water_every=None):
     """traced runs of shipped projects (scratch copy) -> (rc, cases, oracle lines, stderr)"""
     import os
     ex = prepare_examples(ctx)
-    nl, endy = (17, 1995) if ctx.thorough else (14, 1982)
+    nl, endy = (18, 1995) if ctx.thorough else (15, 1982)
     lf = os.path.join(ctx.work, "trace_lines.txt")
     with open(lf, "w") as f:
         f.write("\n".join(trace_lines(ctx, nl, endy)) + "\n")
